@@ -3,6 +3,7 @@ import Spec
 import Gen
 import Proofs.Cost
 import Proofs.Frame
+import Proofs.SerFits
 /-!
   C03 — decoding arbitrary bytes never panics (and what is decoded is bounded by what was
   supplied). The model keeps Go's panicking primitives (`slice`, `sliceFrom`: bounds checks of
@@ -114,6 +115,59 @@ theorem C03_pretty_asserts (t : Nat) (p : Bytes) (v : Val) (h : decodeLeaf t p =
   · rfl
   · rfl
   · rfl
+
+/-! ### Inspection: serialising what was decoded -/
+
+/-- Whatever decodes - well formed or not: wrong-width fixed-size payloads (lenient zero values),
+    Address payloads of any family and length, any nesting - every value of the result fills its
+    `Len()` exactly when serialised, at every depth. `AVP.SerializeTo` is always handed a window of
+    `Len()` octets (`make([]byte, m.Len())`, offsets advancing by `avp.Len()`), and its only
+    panic sites are the slice `b[hl+len(payload):]` and the padding loop behind it: neither can
+    be reached past the window, and no octet of the window is left unwritten. -/
+theorem C03_serialize_fits (ty : Nat → Nat → Nat) (fuel : Nat) (b : Bytes) (as : List AVP)
+    (h : decodeAVPs ty fuel b = .ok as) : fitsL as = true ∧ (encL as).length = lenL as :=
+  ⟨(decode_fits ty fuel).2 b as h, fits_encL as ((decode_fits ty fuel).2 b as h)⟩
+
+/-- ... for a whole message: `Serialize` of a message that was read fills `m.Len()` exactly -/
+theorem C03_serialize_message_fits (d : DictFn) (bs : Bytes) (m : Msg) (h : decodeMsg d bs = .ok m) :
+    m.enc.length = m.len := by
+  unfold decodeMsg at h
+  by_cases h0 : bs.length < 20
+  · simp [h0] at h
+  simp only [h0, if_false] at h
+  cases hd : decodeHeader (bs.take 20) with
+  | err e => rw [hd] at h; cases h
+  | panic p => rw [hd] at h; cases h
+  | ok hdr =>
+    rw [hd] at h
+    dsimp only at h
+    cases hc : d.cmdRules hdr.app hdr.cmd with
+    | none => rw [hc] at h; cases h
+    | some r =>
+      obtain ⟨nreq, nans⟩ := r
+      rw [hc] at h
+      dsimp only at h
+      by_cases h1 : hdr.len < 20
+      · simp [h1] at h
+      simp only [h1, if_false] at h
+      generalize hbody : (bs.drop 20).take (hdr.len - 20) = body at h
+      by_cases h2 : body.length < hdr.len - 20
+      · rw [if_pos h2] at h; cases h
+      rw [if_neg h2] at h
+      by_cases h3 : (if isRequest hdr.flags = true then nreq else nans) = 0
+      · rw [if_pos h3] at h; cases h
+      rw [if_neg h3] at h
+      cases has : decodeAVPs (d.avpType hdr.app) (body.length + 1) body with
+      | ok as =>
+        rw [has] at h
+        simp only [Res.ok.injEq] at h
+        rw [← h]
+        have := (C03_serialize_fits _ _ _ as has).2
+        show (hdr.enc ++ encL as).length = 20 + lenL as
+        rw [List.length_append, this]
+        simp [Header.enc]
+      | err e => rw [has] at h; cases h
+      | panic p => rw [has] at h; cases h
 
 /-- regenerated facts: every type the dictionary loader accepts has a decoder; constants -/
 theorem C03_gen : Gen.HeaderLength = 20 ∧ Gen.Vbit = 128 ∧
